@@ -261,6 +261,18 @@ func run(id, tier string) int {
 			r := runProc("race", time.Duration(tc.RaceS*4+300)*time.Second, env, rb,
 				"-test.run", "^TestRace", "-test.count=1", "-test.timeout=0", "-test.v",
 				"-rapid.seed="+strconv.FormatUint(seedFor(id, 99), 10), "-rapid.nofailfile")
+			if bytes.Contains(r.out, []byte("WARNING: DATA RACE")) {
+				// The race detector's report is the failing case.
+				dir := filepath.Join(root, "replay", id)
+				os.MkdirAll(dir, 0o755)
+				p := filepath.Join(dir, "race-report.txt")
+				os.WriteFile(p, r.out, 0o644)
+				sh := ev.Shard{Property: id, Failures: []ev.ShardFailure{{Check: "race-detector", Path: p,
+					Message: "Go race detector reported a data race during concurrent compilation"}}}
+				jb, _ := json.Marshal(&sh)
+				os.WriteFile(filepath.Join(outDir, "shard-racefail-0.json"), jb, 0o644)
+				r.out = append(r.out, []byte("\nVERIF-FAIL race\n")...)
+			}
 			results = append(results, r)
 		}
 	}
